@@ -115,7 +115,7 @@ func recvRooted(fn *ssa.Function, base ssa.Value) bool {
 	if len(fn.Params) == 0 {
 		return false
 	}
-	for i := 0; i < 6; i++ {
+	for i := 0; i < 10; i++ {
 		if sameObject(base, fn.Params[0]) {
 			return true
 		}
@@ -126,6 +126,13 @@ func recvRooted(fn *ssa.Function, base ssa.Value) bool {
 			base = x.X
 		case *ssa.UnOp:
 			base = x.X
+		case *ssa.Alloc:
+			// a local copy of the receiver (the parameter of a folded value-receiver helper)
+			st := allocStores(x)
+			if len(st) != 1 {
+				return false
+			}
+			base = st[0].Val
 		default:
 			return false
 		}
@@ -277,7 +284,7 @@ func userFieldOnlyFromSession(p *Program, field *types.Var) bool {
 				if pr, ok := v.(*ssa.Parameter); ok {
 					// constructor parameter: check the call sites
 					idx := paramIndex(fn, pr)
-					node := p.CallGraph().Nodes[fn]
+					node := p.cgNode(fn)
 					good := node != nil
 					if node != nil {
 						for _, e := range node.In {
@@ -471,7 +478,7 @@ func ruleContinuationStates(p *Program, r *Result) {
 	getUser, _ := p.rootConst("AuthenStatusGetUser")
 	sites := allReplySites(p)
 	n := 0
-	for _, fn := range p.FuncsIn(func(path string) bool { return path == modPath+"/cmds/server/handlers" }) {
+	for _, fn := range p.UnitsIn(func(path string) bool { return path == modPath+"/cmds/server/handlers" }) {
 		for _, c := range allCalls(fn) {
 			cc := c.Common()
 			if !cc.IsInvoke() || cc.Method.Name() != "Next" || !typeIs(cc.Value.Type(), modPath, "Response") {
@@ -485,9 +492,19 @@ func ruleContinuationStates(p *Program, r *Result) {
 				continue
 			}
 			var st []int64
+			var cands []ReplySite
 			for _, rs := range sites {
-				if rs.Fn == fn && rs.Call.Block() == c.Block() && rs.Resolved {
-					st = rs.Status
+				if rs.Fn == fn && rs.Resolved && (rs.Call.Block() == c.Block() || domInstr(c, rs.Call)) {
+					cands = append(cands, rs)
+				}
+			}
+			if len(cands) == 1 {
+				st = cands[0].Status
+			} else {
+				for _, rs := range cands {
+					if rs.Call.Block() == c.Block() {
+						st = rs.Status
+					}
 				}
 			}
 			// a continuation that delegates to the authenticator must be entered through GETPASS only
